@@ -8,7 +8,7 @@ from ref import btpu as refbtpu
 ID = 'C20'
 LEVEL = 'exploration'
 RULE = ('per run an MTU (none or 40..1400) and 1-4 bundles with lengths straddling the MTU and its multiples sent between two real agents, '
-        'plus foreign frames with several messages, hint lists and padding; the Ethernet (chooser) reorders, duplicates, delays (up to 2.5 s) '
+        'plus foreign frames with several messages, hint lists and padding, and foreign transfers of one segment (end flag, index 0); the Ethernet (chooser) reorders, duplicates, delays (up to 2.5 s) '
         'and in a share of runs drops frames. Every frame on the wire is decoded by the reference decoder and by the repository\'s own '
         'MessageSet and re-encoded. Delivery is demanded when every segment arrived exactly once and every gap between consecutive '
         'segment arrivals of the transfer stayed below the documented receive timeout. Non-trivial: a transfer was segmented or a '
